@@ -100,6 +100,10 @@ def problem(name, dtype):
         def f(t, y):
             return np.ones_like(y)
         return f
+    if name == "osck":         # the oscillator with its frequency as a CONSTANT of the system (OdeSystem.constants): q' = p, p' = -k q
+        def f(t, y, k=1.0):
+            return np.stack([y[1], -k * y[0]])
+        return f
     raise KeyError(name)
 
 
@@ -232,6 +236,9 @@ def _run(sc, detail_rhs=False, keep_system=False):
             kw["rtol"] = sc["rtol"]
         if sc.get("atol") is not None:
             kw["atol"] = sc["atol"]
+        if sc.get("constants") is not None:
+            kw["constants"] = dict(sc["constants"])
+        lg.const_marks = []        # (number of dense pieces stored when new constants were assigned, the constants)
         system = traced.TracedOdeSystem(lg, rhs, y0, t=(sc["t0"], sc["tf"]), dt=sc["dt"],
                                         dense_output=bool(sc.get("dense", False)), **kw)
         lg.emit("Api", op="new", method=str(sc["method"]))
@@ -299,6 +306,10 @@ def _run(sc, detail_rhs=False, keep_system=False):
                     system.method = method_class(v)
                 elif w == "kick":
                     system.set_kick_vars(np.array(v, dtype=bool))
+                elif w == "constants":
+                    sol_ = system.sol
+                    lg.const_marks.append((len(sol_.y_interpolants) if sol_ is not None else 0, dict(v)))
+                    system.constants = dict(v)
                 if w == "method":
                     cur_method[0] = v
                 lg.emit("ApiRet", op="set", k=k, err=None, full=_full_state(system, y0_copy, y0))
@@ -640,7 +651,9 @@ def normalise(sc, lg):
         out.append(o)
     fam = family_of(sc["method"])
     return {"id": sc["id"], "family": fam, "dense": bool(sc.get("dense", False)), "memFaults": int(getattr(lg, "mem_faults", 0) or 0),
-            "t0": it.r(np.asarray(sc["t0"], dtype=dt)), "events": out, "expectFail": list(sc.get("expectFail", []))}
+            "t0": it.r(np.asarray(sc["t0"], dtype=dt)), "events": out, "expectFail": list(sc.get("expectFail", [])),
+            # mayFail: the scenario does not say whether its calls can complete (the repository's own tests, stiff problems at the edge)
+            "mayFail": bool(sc.get("mayFail", False))}
 
 
 # ---------------------------------------------------------------------------------------------
@@ -718,6 +731,10 @@ def run_plain(sc):
                     system.method = method_class(v)
                 elif w == "kick":
                     system.set_kick_vars(np.array(v, dtype=bool))
+                elif w == "constants":
+                    sol_ = system.sol
+                    lg.const_marks.append((len(sol_.y_interpolants) if sol_ is not None else 0, dict(v)))
+                    system.constants = dict(v)
         except traced.BudgetExceeded as e:
             err = "BudgetExceeded"
             break
